@@ -1,0 +1,163 @@
+//go:build verif
+
+// Contracts for package codecs, read by the /verif VC generator (vcgo); only compiled with
+// -tags verif.
+
+package codecs
+
+import (
+	"io"
+
+	"github.com/datastax/go-cassandra-native-protocol/primitive"
+)
+
+// ---------------------------------------------------------------------------------------------
+// C11: the frame body reader and the partial codecs
+// ---------------------------------------------------------------------------------------------
+
+// A FrameBodyReader is a bytes.Reader over Body; the reader's offset (ghost $pos, defined by the
+// assumed contracts of bytes.Reader and the primitive.Read* functions) stays inside Body.
+//@ type codecs.FrameBodyReader
+//@   invariant self.Reader != nil && 0 <= self.Reader.$pos && self.Reader.$pos <= len(self.Body)
+
+//@ func codecs.FrameBodyReader.Position [C11, C17]
+//@   requires r != nil && inv(r)
+//@   ensures result == r.Reader.$pos
+//@   modifies nothing
+
+//@ func codecs.FrameBodyReader.RemainingBytes [C11, C17]
+//@   requires r != nil && inv(r)
+//@   ensures result == old(r.Body[r.Reader.$pos:])
+//@   modifies nothing
+
+//@ func codecs.FrameBodyReader.BytesSince [C11, C17]
+//@   requires r != nil && inv(r) && 0 <= pos && pos <= r.Reader.$pos
+//@   ensures result == old(r.Body[pos:r.Reader.$pos])
+//@   modifies nothing
+
+//@ func codecs.toFrameBodyReader [C11]
+//@   trusted
+//@   ensures typeis(source, *FrameBodyReader) ==> result1 == nil && result0 == as(source, *FrameBodyReader)
+//@   modifies nothing
+
+// QUERY: <query: long string><consistency: short><rest>. The partial codec reads the two leading
+// fields from exactly these offsets (agreement with the protocol layout), keeps the rest as the
+// tail of the body, fails exactly when the body is too short, and never reads past the body.
+//@ func codecs.partialQueryCodec.Decode [C11, C17]
+//@   let rd = as(source, *FrameBodyReader)
+//@   let p0 = rd.Reader.$pos
+//@   let n = be32s(rd.Body[rd.Reader.$pos], rd.Body[rd.Reader.$pos + 1], rd.Body[rd.Reader.$pos + 2], rd.Body[rd.Reader.$pos + 3])
+//@   requires typeis(source, *FrameBodyReader) && rd != nil && inv(rd)
+//@   ensures inv(rd) && rd.Body == old(rd.Body)
+//@   ensures total: (err == nil) == (old(p0) + 4 <= len(rd.Body) && old(p0) + 4 + max(old(n), 0) + 2 <= len(rd.Body))
+//@   ensures err != nil ==> msg == nil
+//@   ensures shape: err == nil ==> typeis(msg, *PartialQuery) && as(msg, *PartialQuery) != nil && fresh(as(msg, *PartialQuery))
+//@   ensures query: err == nil && old(n) > 0 ==> as(msg, *PartialQuery).Query == old(bstr(rd.Body, p0 + 4, n)) && len(as(msg, *PartialQuery).Query) == old(n)
+//@   ensures empty-query: err == nil && old(n) <= 0 ==> as(msg, *PartialQuery).Query == ""
+//@   ensures consistency: err == nil ==> as(msg, *PartialQuery).Consistency == rd.Body[old(p0) + 4 + max(old(n), 0)] * 256 + rd.Body[old(p0) + 4 + max(old(n), 0) + 1]
+//@   ensures rest: err == nil ==> as(msg, *PartialQuery).Parameters == rd.Body[old(p0) + 4 + max(old(n), 0) + 2:] && rd.Reader.$pos == old(p0) + 4 + max(old(n), 0) + 2
+//@   modifies rd.Reader.$pos
+
+//@ func codecs.partialQueryCodec.Encode [C11, C12]
+//@   let q = as(msg, *PartialQuery)
+//@   requires is-query: typeis(msg, *PartialQuery) && q != nil
+//@   requires writer: dest != nil && dest.$n >= 0
+//@   requires short-enough: len(q.Query) < 2147483648
+//@   ensures result == nil ==> dest.$n == old(dest.$n) + 4 + len(q.Query) + 2 + len(q.Parameters)
+//@   ensures query: result == nil ==> len(q.Query) == be32s(dest.$out[old(dest.$n)], dest.$out[old(dest.$n) + 1], dest.$out[old(dest.$n) + 2], dest.$out[old(dest.$n) + 3]) && forall(i, 0, len(q.Query), dest.$out[old(dest.$n) + 4 + i] == sat(q.Query, i))
+//@   ensures consistency: result == nil ==> dest.$out[old(dest.$n) + 4 + len(q.Query)] == q.Consistency / 256 && dest.$out[old(dest.$n) + 4 + len(q.Query) + 1] == q.Consistency % 256
+//@   ensures rest: result == nil ==> forall(i, 0, len(q.Parameters), dest.$out[old(dest.$n) + 4 + len(q.Query) + 2 + i] == q.Parameters[i])
+//@   ensures prefix: result == nil ==> forall(k, 0, old(dest.$n), dest.$out[k] == old(dest.$out[k]))
+//@   modifies dest.$n, dest.$out
+
+//@ func codecs.partialQueryCodec.EncodedLength [C11, C12]
+//@   let q = as(msg, *PartialQuery)
+//@   requires typeis(msg, *PartialQuery) && q != nil
+//@   ensures result1 == nil && result0 == 4 + len(q.Query) + 2 + len(q.Parameters)
+//@   modifies nothing
+
+// Round trip (lemma over the two contracts above): decoding a QUERY body and encoding the result
+// writes exactly the bytes that were read, when the length field is not negative.
+func verifRoundTripQuery(r *FrameBodyReader, dest io.Writer, version primitive.ProtocolVersion) error {
+	c := &partialQueryCodec{}
+	msg, err := c.Decode(r, version)
+	if err != nil {
+		return err
+	}
+	return c.Encode(msg, dest, version)
+}
+
+//@ func codecs.verifRoundTripQuery [C11]
+//@   requires r != nil && inv(r) && dest != nil && dest.$n >= 0 && r.Body[r.Reader.$pos] < 128
+//@   ensures length: result == nil ==> dest.$n == old(dest.$n) + len(r.Body) - old(r.Reader.$pos)
+//@   let p0 = r.Reader.$pos
+//@   let n = be32s(r.Body[r.Reader.$pos], r.Body[r.Reader.$pos + 1], r.Body[r.Reader.$pos + 2], r.Body[r.Reader.$pos + 3])
+//@   ensures header: result == nil ==> forall(k, 0, 4, dest.$out[old(dest.$n) + k] == r.Body[old(p0) + k])
+//@   ensures query-bytes: result == nil ==> forall(k, 0, old(n), dest.$out[old(dest.$n) + 4 + k] == r.Body[old(p0) + 4 + k])
+//@   ensures consistency-bytes: result == nil ==> forall(k, 0, 2, dest.$out[old(dest.$n) + 4 + old(n) + k] == r.Body[old(p0) + 4 + old(n) + k])
+//@   ensures rest-bytes: result == nil ==> forall(k, 0, len(r.Body) - old(p0) - 4 - old(n) - 2, dest.$out[old(dest.$n) + 4 + old(n) + 2 + k] == r.Body[old(p0) + 4 + old(n) + 2 + k])
+//@   modifies r.Reader.$pos, dest.$n, dest.$out
+
+// EXECUTE: <id: short bytes>[<result metadata id: short bytes> if the version has one]<consistency: short><rest>.
+// Which versions carry a result metadata id is the reference library's SupportsResultMetadataId.
+//@ func codecs.partialExecuteCodec.Decode [C11, C17]
+//@   let rd = as(source, *FrameBodyReader)
+//@   let p0 = rd.Reader.$pos
+//@   let n1 = rd.Body[rd.Reader.$pos] * 256 + rd.Body[rd.Reader.$pos + 1]
+//@   let hasRM = version.SupportsResultMetadataId()
+//@   let p1 = rd.Reader.$pos + 2 + (rd.Body[rd.Reader.$pos] * 256 + rd.Body[rd.Reader.$pos + 1])
+//@   requires typeis(source, *FrameBodyReader) && rd != nil && inv(rd)
+//@   replay verifReplayExecute(version, 16, 16)
+//@   ensures inv(rd) && rd.Body == old(rd.Body)
+//@   ensures err != nil ==> msg == nil
+//@   ensures shape: err == nil ==> typeis(msg, *PartialExecute) && as(msg, *PartialExecute) != nil && fresh(as(msg, *PartialExecute))
+//@   ensures id: err == nil ==> len(as(msg, *PartialExecute).QueryId) == old(n1) && old(n1) > 0 && forall(i, 0, old(n1), as(msg, *PartialExecute).QueryId[i] == rd.Body[old(p0) + 2 + i])
+//@   ensures no-result-metadata: err == nil && !hasRM ==> len(as(msg, *PartialExecute).ResultMetadataId) == 0 && as(msg, *PartialExecute).Consistency == rd.Body[old(p1)] * 256 + rd.Body[old(p1) + 1] && as(msg, *PartialExecute).Parameters == rd.Body[old(p1) + 2:]
+//@   ensures result-metadata: err == nil && hasRM ==> len(as(msg, *PartialExecute).ResultMetadataId) == rd.Body[old(p1)] * 256 + rd.Body[old(p1) + 1] && len(as(msg, *PartialExecute).ResultMetadataId) > 0 && forall(i, 0, len(as(msg, *PartialExecute).ResultMetadataId), as(msg, *PartialExecute).ResultMetadataId[i] == rd.Body[old(p1) + 2 + i])
+//@   ensures after-result-metadata: err == nil && hasRM ==> as(msg, *PartialExecute).Consistency == rd.Body[old(p1) + 2 + len(as(msg, *PartialExecute).ResultMetadataId)] * 256 + rd.Body[old(p1) + 2 + len(as(msg, *PartialExecute).ResultMetadataId) + 1] && as(msg, *PartialExecute).Parameters == rd.Body[old(p1) + 2 + len(as(msg, *PartialExecute).ResultMetadataId) + 2:]
+//@   ensures truncated: old(p0) + 2 > len(rd.Body) || old(p1) + 2 > len(rd.Body) ==> err != nil
+//@   modifies rd.Reader.$pos
+
+//@ func codecs.partialExecuteCodec.Encode [C11, C12]
+//@   let e = as(msg, *PartialExecute)
+//@   let hasRM = version.SupportsResultMetadataId()
+//@   let rmLen = ite(version.SupportsResultMetadataId(), 2 + len(as(msg, *PartialExecute).ResultMetadataId), 0)
+//@   replay verifReplayExecute(version, 16, 16)
+//@   requires typeis(msg, *PartialExecute) && e != nil && dest != nil && dest.$n >= 0 && len(e.QueryId) < 65536 && len(e.ResultMetadataId) < 65536
+//@   ensures length: result == nil ==> dest.$n == old(dest.$n) + 2 + len(e.QueryId) + rmLen + 2 + len(e.Parameters)
+//@   ensures id: result == nil ==> dest.$out[old(dest.$n)] == len(e.QueryId) / 256 && dest.$out[old(dest.$n) + 1] == len(e.QueryId) % 256 && forall(i, 0, len(e.QueryId), dest.$out[old(dest.$n) + 2 + i] == e.QueryId[i])
+//@   ensures result-metadata: result == nil && hasRM ==> dest.$out[old(dest.$n) + 2 + len(e.QueryId)] == len(e.ResultMetadataId) / 256 && dest.$out[old(dest.$n) + 2 + len(e.QueryId) + 1] == len(e.ResultMetadataId) % 256 && forall(i, 0, len(e.ResultMetadataId), dest.$out[old(dest.$n) + 2 + len(e.QueryId) + 2 + i] == e.ResultMetadataId[i])
+//@   ensures consistency: result == nil ==> dest.$out[old(dest.$n) + 2 + len(e.QueryId) + rmLen] == e.Consistency / 256 && dest.$out[old(dest.$n) + 2 + len(e.QueryId) + rmLen + 1] == e.Consistency % 256
+//@   ensures rest: result == nil ==> forall(i, 0, len(e.Parameters), dest.$out[old(dest.$n) + 2 + len(e.QueryId) + rmLen + 2 + i] == e.Parameters[i])
+//@   ensures prefix: result == nil ==> forall(k, 0, old(dest.$n), dest.$out[k] == old(dest.$out[k]))
+//@   modifies dest.$n, dest.$out
+
+//@ func codecs.partialExecuteCodec.EncodedLength [C11, C12]
+//@   let e = as(msg, *PartialExecute)
+//@   requires typeis(msg, *PartialExecute) && e != nil
+//@   ensures result1 == nil && result0 == 2 + len(e.QueryId) + ite(version.SupportsResultMetadataId(), 2 + len(e.ResultMetadataId), 0) + 2 + len(e.Parameters)
+//@   modifies nothing
+
+// Round trip for EXECUTE (lemma over the Decode and Encode contracts), for every protocol version.
+func verifRoundTripExecute(r *FrameBodyReader, dest io.Writer, version primitive.ProtocolVersion) error {
+	c := &partialExecuteCodec{}
+	msg, err := c.Decode(r, version)
+	if err != nil {
+		return err
+	}
+	return c.Encode(msg, dest, version)
+}
+
+//@ func codecs.verifRoundTripExecute [C11]
+//@   let p0 = r.Reader.$pos
+//@   let n1 = r.Body[r.Reader.$pos] * 256 + r.Body[r.Reader.$pos + 1]
+//@   let p1 = r.Reader.$pos + 2 + (r.Body[r.Reader.$pos] * 256 + r.Body[r.Reader.$pos + 1])
+//@   let n2 = ite(version.SupportsResultMetadataId(), 2 + (r.Body[p1] * 256 + r.Body[p1 + 1]), 0)
+//@   requires r != nil && inv(r) && dest != nil && dest.$n >= 0
+//@   ensures length: result == nil ==> dest.$n == old(dest.$n) + len(r.Body) - old(p0)
+//@   ensures id-length-bytes: result == nil ==> forall(k, 0, 2, dest.$out[old(dest.$n) + k] == r.Body[old(p0) + k])
+//@   ensures id-bytes: result == nil ==> forall(k, 0, old(n1), dest.$out[old(dest.$n) + 2 + k] == r.Body[old(p0) + 2 + k])
+//@   ensures result-metadata-bytes: result == nil ==> forall(k, 0, old(n2), dest.$out[old(dest.$n) + 2 + old(n1) + k] == r.Body[old(p1) + k])
+//@   ensures consistency-bytes: result == nil ==> forall(k, 0, 2, dest.$out[old(dest.$n) + 2 + old(n1) + old(n2) + k] == r.Body[old(p1) + old(n2) + k])
+//@   ensures rest-bytes: result == nil ==> forall(k, 0, len(r.Body) - old(p1) - old(n2) - 2, dest.$out[old(dest.$n) + 2 + old(n1) + old(n2) + 2 + k] == r.Body[old(p1) + old(n2) + 2 + k])
+//@   modifies r.Reader.$pos, dest.$n, dest.$out
